@@ -8,6 +8,11 @@ Deviations from DESIGN.md section 3 / C12 (everything else as designed):
 * a workspace instance counts as "touched" from the first user action until it leaves the workspace (identity =
   inode of the SCM directory, which a rename into the attic preserves); the fresh directory that replaces an
   instance moved to the attic is untouched again and must converge.
+* Bob exits with the status of the failed command (e.g. 128 from git), so "refused" = any non-zero status without a
+  traceback; a traceback / "internal Exception" / death by signal is reported as internal-error.
+* oracle A is not evaluated when the final spec has no SCM at all (no checkout step exists; the old directory is
+  unreferenced garbage for `bob clean -s`).
+* most `bob dev` invocations run with `-B --no-audit` to save processes (see ASSUMPTIONS).
 """
 import os, json, shutil, hashlib, stat, time
 from hypothesis import strategies as st
@@ -20,27 +25,32 @@ PROP = "C12"
 LEVEL = "exploration"
 RULE = ("Generated source universes (1-3 local bare git repositories: linear branches forking from each other, "
         "lightweight/annotated tags, unrelated repositories and forks that are ahead/behind/diverged; plain files and a "
-        "tarball behind file:// URLs with/without digests; import directories) and a root recipe with 0-3 checkoutSCM "
-        "entries (git by branch/tag/commit/branch+commit/branch+tag, url, import; dirs '.', one level, nested in legal "
-        "order). History = rounds of [user actions in git source workspaces: modify tracked file, untracked file, "
-        "commit on current branch, commit on new branch, branch switch, detached HEAD + commit - each plants a unique "
-        "marker][recipe edits: url/repo, ref, dir, add/remove/reorder SCM, digest refresh; upstream events: commit, "
-        "branch, tag, new/forked repository, replaced url file, import file add/modify/delete][one Bob invocation: dev, "
-        "dev --clean-checkout, dev --no-attic, clean, clean -s (also after dropping all SCMs), clean --attic; never "
-        "forced]. Oracle B after EVERY invocation regardless of its exit status: every file marker exists "
-        "byte-identical in a file below the project root, every commit marker is in `git rev-list --all HEAD` of a "
-        "repository below the project root. Oracle A at the end: after a final plain `bob dev root`, if a fresh "
-        "`bob dev root -B` of the final spec at another path succeeds, the incremental invocation succeeded too "
-        "(unless a touched instance is in the workspace) and canon(workspace) == canon(fresh) outside touched "
-        "instances. Non-trivial: a recipe edit hit an instance carrying >=1 user marker and Bob switched it inline "
-        "or moved it to the attic; distinct = hash of the case.")
+        "tarball behind file:// URLs / plain paths with/without SHA1/SHA256 digests; import directories) and a root "
+        "recipe with 0-3 checkoutSCM entries (git by branch/tag/commit/branch+commit/branch+tag, url, import with/without "
+        "prune; dirs '.', one level, nested in legal order, two-level). History = 2-3 rounds (thorough: up to 6) of [0-3 "
+        "user actions in git source workspaces: modify tracked file, untracked file, commit on current branch, commit "
+        "on new branch, branch switch, detached HEAD + commit - each plants a unique marker][0-2 recipe edits (repo/url, "
+        "ref, dir, add/remove/reorder SCM, digest refresh, 'bump' = upstream publishes and the recipe follows) or "
+        "upstream events (commit, branch, tag, new unrelated/forked repository, replaced url file, import file "
+        "add/modify/delete)][one Bob invocation: dev, dev --clean-checkout, dev --no-attic, clean, clean -s (also "
+        "after dropping all SCMs), clean --attic; never forced]. Oracle B after EVERY invocation regardless of its "
+        "exit status: every file marker exists byte-identical in a file below the project root, every commit marker "
+        "is in `git rev-list --all HEAD` of a repository below the project root. Oracle A at the end: after a final "
+        "`bob dev root`, if a fresh `bob dev root` of the final spec at another path succeeds, the incremental "
+        "invocation succeeded too (unless a touched instance is still in the workspace) and canon(workspace) == "
+        "canon(fresh) outside touched instances. Non-trivial: a recipe edit hit an instance carrying >=1 live user "
+        "marker and Bob switched it inline or moved it to the attic; distinct = hash of the case.")
 ASSUMPTIONS = ["user actions happen only inside directories owned by a git SCM; the marker files live at the top level "
                "of that directory (not inside a nested SCM directory)",
-               "upstream never rewrites history and never moves or re-uses a tag name; url files and import files get "
-               "strictly increasing mtimes from a logical clock",
+               "upstream never rewrites history and never moves or re-uses a tag name; import files get strictly "
+               "increasing mtimes from a logical clock, url files real modification times (an upstream change is "
+               "younger than every earlier build - the url SCM compares with the time of its last extraction)",
                "all policies at their new behaviour (bobMinimumVersion 1.0): import prunes, commit/tag + branch is "
                "checked against the branch, url downloads are kept outside the workspace when extracted",
                "import SCM with prune: False is exempt from oracle A once its source directory lost a file (documented)",
+               "most `bob dev` invocations carry -B --no-audit (fewer processes; neither option takes part in the "
+               "checkout/attic logic), some are the plain command; gc.auto=0 / maintenance.auto=false for all git "
+               "processes started by Bob (git gc never runs)",
                "Bob runs inside the harness process; every suspected violation is re-run with the real `bob` script in "
                "fresh processes before it is reported"]
 TIME_BUDGET = {"quick": 240, "thorough": 1500}
@@ -49,7 +59,7 @@ BATCH = 16     # (Hypothesis starts every batch with the minimal example: small 
 WS = "dev/src/root/1/workspace"
 SRCBASE = "dev/src/root/1"
 DIRS = [".", "a", "b", "n", "a/n"]
-USER_KINDS = ["modify", "untracked", "commit", "newbranch", "switch", "detach"]
+USER_KINDS = ["modify", "untracked", "commit", "newbranch", "switch", "detach", "sidebranch"]
 # -B (checkout only) and --no-audit keep the number of processes per invocation down (process creation dominates the
 # cost of this check); neither option takes part in the checkout/attic/clean logic.  "dev-full" is the plain command.
 LEAN = ["-B", "--no-audit"]
@@ -340,13 +350,26 @@ class Run:
             if rc != 0:
                 raise RuntimeError("harness: checkout -b failed: " + err)
             commit("commit-on-new-branch")
+        elif kind == "sidebranch":
+            # a feature branch with a commit is left behind, the user is back where he was
+            if branch is None:
+                self.labels.add("user-skipped:sidebranch-from-detached-head"); return
+            rc, _, err = g("checkout", "-q", "-b", "ub%d" % n)
+            if rc != 0:
+                raise RuntimeError("harness: checkout -b failed: " + err)
+            commit("commit-on-side-branch")
+            rc, _, err = g("checkout", "-q", branch)
+            if rc != 0:
+                raise RuntimeError("harness: checkout back failed: " + err)
         elif kind == "switch":
             if branch is None and inode in self.detached_commit:
                 self.labels.add("user-skipped:switch-would-orphan-own-commit"); return
             names = [b for b in sorted(set(srcuni.remote_branches(wd)) | set(srcuni.local_branches(wd))) if b != branch]
             if not names:
                 self.labels.add("user-skipped:no-other-branch"); return
-            rc, _, err = g("checkout", "-q", names[op[3] % len(names)])
+            cfg = (self.sim.by_dir().get(d) or {}).get("res", {}).get("branch")
+            name = cfg if (op[3] % 2 == 0 and cfg in names) else names[op[3] % len(names)]
+            rc, _, err = g("checkout", "-q", name)
             if rc != 0:
                 self.labels.add("user-skipped:switch-refused-by-git"); return
         elif kind == "detach":
@@ -627,17 +650,32 @@ def case_st(quick):
     })
 
 
+_failed = set()     # cases that raised a violation: Hypothesis replays them, the time guard must not skip them
+
 def check(ctx, case):
-    if ctx.out_of_time() and not ctx.in_shrink:
+    key = jhash(case)
+    if ctx.out_of_time() and key not in _failed:
         # wall-clock guard inside a batch: the case is not executed and not judged (reported in the evidence)
         ctx.extra["cases_not_run_time_guard"] = ctx.extra.get("cases_not_run_time_guard", 0) + 1
         return
     try:
+        if not ctx.quick() and int(key, 16) % 10 == 0:
+            # thorough tier: every tenth case runs the real `bob` script in fresh processes (real process pool)
+            try:
+                ctx.label("ran-with-real-bob-script")
+                run_case(ctx, case, confirm=True)
+            except Violation:
+                _failed.add(key)
+                raise
+            return
         run_case(ctx, case)
     except Violation as v:
+        if key in _failed:
+            raise
         try:
             run_case(ctx, case, confirm=True)
         except Violation as w:
+            _failed.add(key)
             raise w
         ctx.label("unconfirmed-in-fresh-process:" + v.signature)
 
